@@ -659,7 +659,9 @@ def gen_histories(run):
         off_d = r.choice([0, 1, 3, 20, r.randrange(0, 300)])
         hs.append(wrap(role, r.choice([512, 1096, 1500, r.randrange(512, 1501)]), retry, off_d, off_m, r.choice([1, 2, 5, 20, 60])))
     if run.thorough():
-        hs.append(long_history("client", 1500, 70000, 150))
+        # (server role: a one-endpoint history has a silent peer, and the client gives up after 5 s of silence — send() is then a
+        # no-op; the client role crosses the wrap through the seq0 histories above and the two-endpoint sessions)
+        hs.append(long_history("server", 1500, 70000, 150))
         hs.append(long_history("server", 512, 66000, 40))
     for mtu in mtus:
         role = r.choice(["client", "server"])
